@@ -22,6 +22,8 @@ Step(ev) ==
     [] ev.e = "prefixes" ->
          /\ Chk(\A i \in DOMAIN ev.cuts : ev.outs[i] = 1 \/ ev.same[i] = 1, "a truncated file was accepted with different pixels")
          /\ Chk(\A i \in DOMAIN ev.cuts : ev.cuts[i] = ev.n => (ev.outs[i] = 0 /\ ev.same[i] = 1), "the complete file must load")
+         /\ Chk(\A i \in DOMAIN ev.cuts : ev.leaks[i] = 0, "loading a (truncated) file by name left a descriptor open")
+         /\ Chk(\A i \in DOMAIN ev.cuts : ev.agree[i] = 1, "loading by name and loading from a stream disagree")
     [] OTHER -> Bad2("no specification action for event " \o ev.e)
 Next == l <= Len(Tr) /\ l' = l + 1 /\ Step(Tr[l])
 Spec == Init /\ [][Next]_l
